@@ -32,6 +32,10 @@ Bases == [
               [k |-> "media", queries |-> <<"screen">>, rules |-> <<Style(<<"b">>, B2), Style(<<"i">>, B1)>>]>>]>>,
   s9 |-> <<[k |-> "media", queries |-> <<"print">>, rules |-> <<Style(<<"a">>, B2),
               [k |-> "page", sel |-> ":first", body |-> B2, margins |-> <<[name |-> "@top-left", body |-> B2]>>]>>]>>,
+  \* values that are functions: a cut may fall after any number of their arguments
+  s10 |-> <<Style(<<"a">>, B2), Style(<<"b">>, <<D("color", <<C("COLOR_VALUE", "rgb(10, 20, 30)")>>, ""), D("left", <<C("CALC", "calc(1px + 2px)")>>, ""),
+                                  D("background", <<C("URI", "url(x)")>>, ""), D("top", <<C("FUNCTION", "f(1, 2)")>>, "")>>),
+            Style(<<"i">>, <<D("color", <<C("COLOR_VALUE", "hsla(120, 50%, 50%, 0.5)")>>, "important")>>)>>,
   s7 |-> <<[k |-> "namespace", prefix |-> "p", uri |-> "u"], Style(<<"a">>, B2), Style(<<"p|a">>, B1),
            [k |-> "media", queries |-> <<"print">>, rules |-> <<Style(<<"p|b", "b">>, B2)>>]>>]
 BaseIds == DOMAIN Bases
